@@ -616,6 +616,13 @@ def gen_float(rng, tier):
             mid = rng.choice([0.0, math.pi])
         mid += rng.choice([0, 0, 1e-9, -1e-9, 1e-8, 3e-8, 1e-7, -1e-7, 1e-6, 1e-5, 1e-4, -1e-4, 3e-4, 5e-4, 1e-3, 2e-3])
         qs.append(qmulf(qmulf(qaxis(a0, rng.uniform(-math.pi, math.pi)), qaxis(a1, mid)), qaxis(a2, rng.uniform(-math.pi, math.pi))))
+    # small rotations: angle m*10^-k about random and coordinate axes (w = cos(angle/2) rounds to 1 long before the angle is lost)
+    for k in range(1, 9):
+        for mm in (1, 2, 4, 7):
+            ang = mm * 10.0 ** (-k)
+            for ax in ((0, 0, 1), (1, 0, 0), [rng.gauss(0, 1) for _ in range(3)]):
+                n = math.sqrt(sum(x * x for x in ax))
+                qs.append([math.cos(ang / 2)] + [math.sin(ang / 2) * x / n for x in ax])
     for i in range(0, len(qs), 4):
         cases.append(["frot " + " ".join(dhex(x) for x in q) for q in qs[i:i + 4]])
     # Euler triples for all 24 conventions incl. gimbal lock (middle angle +-pi/2 resp. 0, pi) and its neighbourhood
@@ -628,13 +635,26 @@ def gen_float(rng, tier):
                 a0 = rng.uniform(-math.pi, math.pi)
                 a2 = rng.uniform(-math.pi, math.pi)
                 c.append("feuler %s%s %s %s %s" % (o, fx, dhex(a0), dhex(mid), dhex(a2)))
+            # the band next to the lock: middle angle = lock + m*10^-k and small outer angles
+            lock = rng.choice([math.pi / 2, -math.pi / 2]) if o[0] != o[2] else rng.choice([0.0, math.pi])
+            for k in range(1, 9):
+                mm = rng.choice([1, 2, 4, 7]) * rng.choice([1, -1])
+                c.append("feuler %s%s %s %s %s" % (o, fx, dhex(rng.uniform(-math.pi, math.pi)), dhex(lock + mm * 10.0 ** (-k)), dhex(rng.uniform(-math.pi, math.pi))))
+                c.append("feuler %s%s %s %s %s" % (o, fx, dhex(mm * 10.0 ** (-k)), dhex(rng.uniform(-1.5, 1.5) if o[0] != o[2] else rng.uniform(0.1, 3.0)), dhex(-3 * 10.0 ** (-k))))
             for rep in range(6 if tier == "quick" else 400):
                 c.append("feuler %s%s %s" % (o, fx, " ".join(dhex(rng.uniform(-math.pi, math.pi)) for _ in range(3))))
             c.append("feuler %s%s %s %s %s" % (o, fx, dhex(0.0), dhex(0.0), dhex(0.0)))
             c.append("feuler %s%s %s %s %s" % (o, fx, dhex(math.pi / 2), dhex(math.pi / 2), dhex(math.pi / 2)))
             cases.append(c)
     # rotation vectors
-    vs = [[0.0, 0.0, 0.0], [math.pi, 0, 0], [0, math.pi, 0], [0, 0, -math.pi], [1e-9, 0, 0], [1e-5, 1e-5, 0], [3.0, 0.5, 0.2]]
+    vs = []
+    for k in range(1, 9):
+        for mm in (1, 3, 6):
+            ax = [rng.gauss(0, 1) for _ in range(3)]
+            n = math.sqrt(sum(x * x for x in ax))
+            vs.append([mm * 10.0 ** (-k) * x / n for x in ax])
+            vs.append([0.0, 0.0, mm * 10.0 ** (-k)])
+    vs += [[0.0, 0.0, 0.0], [math.pi, 0, 0], [0, math.pi, 0], [0, 0, -math.pi], [1e-9, 0, 0], [1e-5, 1e-5, 0], [3.0, 0.5, 0.2]]
     for i in range(400 if tier == "quick" else 6000):
         ax = [rng.gauss(0, 1) for _ in range(3)]
         n = math.sqrt(sum(x * x for x in ax)) or 1.0
@@ -712,8 +732,9 @@ def oracle(case, impl, model, crash):
             continue
         if l.startswith("f"):
             if impl[i] != "ok":
-                return True, ("numeric clause violated (float/double result against the long double reference, bound c*eps*cond "
-                              "resp. 8*sqrt(eps) for angle extraction): " + impl[i])
+                return True, ("numeric clause violated (float/double result against the long double reference; bound 64*eps for "
+                              "quaternion/matrix/axis-angle conversions and for Euler angles of a matrix composed with the same axis "
+                              "order, 16*eps/cos(middle) for Euler angles of other matrices, c*eps*cond for inverse/solve): " + impl[i])
             continue
         exp = reference(l)
         if exp is not None and impl[i] != exp:
@@ -766,7 +787,7 @@ LEVEL_TEXT = ("Proved in Lean 4 over an arbitrary field, about definitions REGEN
               "Euler angles: rotateX/Y/Z, rotate(int,T), rotateE and eulerAngles (both const char* wrappers) are regenerated with "
               "cos/sin/asin/acos/atan2/PI as an abstract interface; for any such functions with the standard properties (TrigOK, shown "
               "to hold for the real functions) and exact arithmetic, rotateE(eulerAngles(rotateE(r))) = rotateE(r) for EVERY angle "
-              "triple r, all 12 axis orders, moving and fixed frames, both away from the gimbal-lock threshold (general branch) and "
+              "triple r, all 12 axis orders, moving and fixed frames, both away from the gimbal lock (general branch, |cos b| resp. |sin b| > lim) and "
               "exactly on the lock (degenerate branch); the entries fed to asin/atan2 are exactly sin b, cos b (sin a, cos a), "
               "cos b (sin c, cos c). "
               "Axis-angle: fromAxisAngle/fromAxisAngleU/fromAxisAngle(v), angle(), axisAngle(), Matrix4::rotate(axis,angle), rotate(Vec3), "
@@ -791,12 +812,16 @@ LEVEL_NOTE = ("Trusted: Lean kernel; the expression translator tools/props/c20_t
               "rotation_matrix_full (matrix(rotation M) = M for EVERY proper rotation matrix M) is only stated: it needs surjectivity of "
               "q -> matrix q onto SO(3); proved is rotation_matrix_partial (M in the image). The axis-angle and Euler theorems assume "
               "TrigOK/TrigAA/TrigDouble/CmpStd for cos/sin/asin/acos/atan2/sqrt (proved for the real functions in examples); "
-              "the behaviour of eulerAngles() strictly between the lock threshold and the exact lock (there the degenerate branch is an "
-              "approximation with error <= sqrt(2(1-lim)); validated numerically with tolerance 8*sqrt(eps), 64*eps for "
-              "quaternion<->matrix). The Euler theorems are about exact arithmetic with abstract trigonometric functions, the branch "
-              "threshold lim is a parameter (<= 1). "
+              "the behaviour of eulerAngles() when the cosine (sine) c of the middle angle is in (0, lim] (there the degenerate branch is an "
+              "approximation with error <= c <= lim = 16 eps); numeric tolerances: 64*eps for quaternion<->matrix<->axis-angle at every "
+              "angle (incl. 10^-k) and for Euler angles of a matrix built by rotateE with the same order at every distance from the "
+              "lock (incl. lock +- 10^-k), 16*eps/c for Euler angles of matrices with absolute noise (from quaternions). The Euler "
+              "theorems are about exact arithmetic with abstract trigonometric functions; the branch threshold lim is a parameter (>= 0). "
               "The Euler/rotate definitions are tied to the source by the translator only (they are not executed by the model driver: no "
               "exact trigonometry exists over the prime field); the real eulerAngles()/rotateE() are exercised numerically. "
               "The solve_ model is hand-written (K-tied), not regenerated; its inner jj-loop is modelled as the simultaneous row update "
               "it is equal to. Theorems assume field laws: they say nothing about rounding. Two defects were found and repaired in "
-              "/repo (fix: commits ddac4e2 Matrix3 operator*, 59184ad eulerAngles near gimbal lock); witnesses in corpus/C20.")
+              "/repo (fix: commits ddac4e2 Matrix3 operator*, 59184ad eulerAngles near gimbal lock); two more reported by an independent hunt "
+              "and fixed (f6f3b25 angle()/axisAngle() lost small rotations, 3b6cfb4 eulerAngles locked formulas used up to 1e-3 rad from "
+              "the lock -- the latter introduced by the threshold of 59184ad, which the then 8*sqrt(eps) tolerance of this check "
+              "accepted); witnesses in corpus/C20.")
